@@ -79,3 +79,79 @@ class Earley:
         acc = any(prods[p][0] == self.start and d == len(prods[p][1]) and o == 0
                   for (p, d, o) in last)
         return (viable == len(w) and acc), viable, expected, acc
+
+
+class CharEarley:
+    """Viable-prefix analysis at character level for scannerless parsing with
+    lexical overlap: breadth-first search over (Earley item set, raw position)
+    where each step scans one terminal that is expected by the item set and
+    matches the text after layout.  Terminals, layout and matching as in
+    ref/cfg.py."""
+
+    def __init__(self, prods, start, matchers, skip):
+        self.e = Earley(prods, start)
+        self.m = matchers
+        self.skip = skip
+        self.prods = self.e.prods
+
+    def _close(self, items):
+        """closure of an item set that is independent of origins: we only need
+        expected terminals / acceptance, so run Earley incrementally"""
+        raise NotImplementedError
+
+    def analyse(self, s):
+        """returns dict(sentence, pos, expected, farthest_q)
+        pos      = character offset where the error is reported when s is not
+                   a sentence: layout-skipped farthest end of a viable token
+                   prefix
+        expected = terminals that can follow a viable token prefix ending at
+                   that farthest position
+        """
+        e = self.e
+        n = len(s)
+        # configurations: (tuple of tokens) would explode; Earley sets depend
+        # on the whole token history, so key the search by (token tuple) but
+        # merge configurations with equal (frozenset(last set), q) - the last
+        # set alone does not determine the future (origins point into earlier
+        # sets), hence keep the full list of sets with the representative.
+        start_sets = e.sets([])
+        seen = {}
+        work = [((), 0, start_sets)]
+        far_q = 0
+        best = []
+        sentence = False
+        while work:
+            toks, q, S = work.pop()
+            last = S[-1]
+            i = self.skip(s, q)
+            acc = any(e.prods[p][0] == e.start and d == len(e.prods[p][1])
+                      and o == 0 for (p, d, o) in last)
+            if acc and i == n:
+                sentence = True
+            exp = {e.prods[p][1][d] for (p, d, o) in last
+                   if d < len(e.prods[p][1]) and e.prods[p][1][d] not in e.nts}
+            if q > far_q:
+                far_q = q
+                best = []
+            if q == far_q:
+                best.append(exp)
+            if i >= n:
+                continue
+            for t in sorted(exp):
+                q2 = self.m.match(t, s, i)
+                if q2 is None:
+                    continue
+                toks2 = toks + (t,)
+                S2 = e.sets(list(toks2))
+                if not S2[-1] or len(S2) != len(toks2) + 1:
+                    continue
+                key = (toks2, q2)
+                if key in seen:
+                    continue
+                seen[key] = True
+                work.append((toks2, q2, S2))
+        expected = set()
+        for x in best:
+            expected |= x
+        return {"sentence": sentence, "pos": self.skip(s, far_q),
+                "expected": expected, "farthest_q": far_q}
